@@ -728,6 +728,31 @@ def run_cases(run, cases, nm, label):
     return impl, good, bad, dis
 
 
+PYCMP = {"CLt": lambda a, b: a < b, "CLe": lambda a, b: a <= b, "CGt": lambda a, b: a > b, "CGe": lambda a, b: a >= b,
+         "CEq": lambda a, b: a == b, "CNe": lambda a, b: a != b}
+
+
+def probe_source(run, src):
+    """Run-time probes must agree with what the translator read: the real _fudge_modified against the
+    arithmetic of the recorded comparisons and constants, at every offset around the old time."""
+    cases, want = [], []
+    for old in (T2020, T2020 + 1500, T2020 + 999999):
+        for d in list(range(-1100, 2101)) + [-1000000, 1000000, 86400000000]:
+            for v21 in (True, False):
+                now = old + d
+                cases.append({"probe": "fudge", "old": old, "now": now, "v21": v21})
+                if v21:
+                    want.append(old + src["f21_push"] if PYCMP[src["f21_cmp"]](now, old) else now)
+                else:
+                    want.append(old + src["f20_push"] if PYCMP[src["f20_cmp"]](now - old, src["f20_threshold"]) else now)
+    got = common.run_impl("c05_impl", cases, procs=4)
+    bad = [(c, g, w) for c, g, w in zip(cases, got, want) if g.get("us") != w]
+    run.coverage["source_probes"] = len(cases)
+    if bad:
+        run.broken.append(Broken("correspondence", "_fudge_modified at run time vs the comparisons and constants read from its text",
+                                 {"first": [{"case": c, "impl": g, "text": w} for c, g, w in bad[:5]]}))
+
+
 def eval_by_size(label, terms, limit=90000):
     """Case files of at most ~90 KB of literals each (literal parsing is the cost), evaluated in parallel."""
     from concurrent.futures import ThreadPoolExecutor
@@ -776,9 +801,26 @@ def check(run):
             run.broken.append(Broken("translator", "tr_versioning", {"error": "%s: %s" % (type(e).__name__, str(e)[-800:])}))
         if gen_ok:
             res = common.build_props("Props/C05.v")
-            run.add_build(res, "make -C coq Props/C05.vo (coqc 8.16.1, full .vo) + Print Assumptions per theorem")
+            run.add_build(res, "make -C coq Props/C05.vo Props/C05Src.vo (coqc 8.16.1, full .vo) + Print Assumptions per theorem")
         else:
             run.coverage["obligations"] += len(common.theorems_in("Props/C05.v"))
+        # the source-text tie: the choices of versioning.py read from its ast, and the obligations on them
+        src = None
+        try:
+            import tr_versioning_src
+            text, src = tr_versioning_src.translate(common.REPO, common.PY, common.VERIF)
+            common.write_if_changed(os.path.join(common.COQ, "Gen", "VersioningSrc.v"), text)
+            run.coverage["source_choices"] = {k: src[k] for k in ("f21_cmp", "f21_push", "f20_cmp", "f20_threshold", "f20_push",
+                                                                   "supplied_cmp", "i_revoked", "unmod_lists")}
+        except Exception as e:  # noqa: BLE001
+            run.broken.append(Broken("translator", "tr_versioning_src", {"error": "%s: %s" % (type(e).__name__, str(e)[-800:])}))
+        if src is not None:
+            res2 = common.build_props("Props/C05Src.v")
+            run.add_build(res2, "make -C coq Props/C05.vo Props/C05Src.vo (coqc 8.16.1, full .vo) + Print Assumptions per theorem")
+        else:
+            run.coverage["obligations"] += len(common.theorems_in("Props/C05Src.v"))
+    if src is not None:
+        probe_source(run, src)
     nm = select_variant(run)
     run.coverage["variant_selected"] = {"naive_mode": nm}
     cases = gen_cases(run, n_chains, max_ops)
